@@ -128,6 +128,7 @@ class _Walker:
         self.ev = Evaluator(program, backend, summaries=_summaries_for(program, module, fname, shared))
         self.qual = '%s.%s' % (module, fname)
         self.depth = 0
+        self.nloops = 0
 
     def run(self):
         env = {p: T.sym('$' + p) for p in self.fi.params}
@@ -185,13 +186,15 @@ class _Walker:
                 carried = [n for n in written if n not in tnames and (n in exp or n in outside)]
                 init = [env.get(n) for n in carried]
                 d = self.depth
+                self.nloops += 1
+                lid = self.nloops          # symbols of different loops never coincide
                 env_loop = dict(env)
                 for i, n in enumerate(carried):
-                    env_loop[n] = T.sym('$L%d_%d' % (d, i))
+                    env_loop[n] = T.sym('$L%d_%d' % (lid, i))
                 fr = Frame(self.fi, env_loop, facts, self.fi.module, self.fi.cls, 0)
                 if isinstance(s, ast.For):
                     it = self.ev.expr(s.iter, Frame(self.fi, dict(env), facts, self.fi.module, self.fi.cls, 0))
-                    self.ev.assign(s.target, T.sym('$E%d' % d), fr)
+                    self.ev.assign(s.target, T.sym('$E%d' % lid), fr)
                     head = ('for', it)
                 else:
                     head = ('while', T.truth(self.ev.expr(s.test, fr)))
@@ -202,9 +205,9 @@ class _Walker:
                 out_state = [env_b.get(n) for n in carried]
                 recs.append(('loop', head, init, body_recs, out_state, else_recs))
                 for i, n in enumerate(carried):
-                    env[n] = T.sym('$OUT%d_%d' % (d, i))
+                    env[n] = T.sym('$OUT%d_%d' % (lid, i))
                 for n in tnames:
-                    env[n] = T.sym('$LASTE%d' % d)
+                    env[n] = T.sym('$LASTE%d' % lid)
             else:
                 pending.append(s)
         flush()
@@ -229,9 +232,67 @@ def compare(ob, repo_prog, ref_prog, module, fname, same_term, backend='ecdsa'):
     vocab = set()
     _vocab_of(b, vocab)
 
+    vocab.add('MINBYTES')
+
     def st(ob_, found, expected, what, where_=None):
-        return same_term(ob_, found, expected, what, where_, vocab=vocab)
+        return same_term(ob_, canon(found) if found is not None else None, canon(expected) if expected is not None else None,
+                         what, where_, vocab=vocab)
     _cmp_recs(ob, a, b, fname, where, st)
+
+
+def _minbytes(t):
+    """Idioms for "the shortest big-endian byte string of a non-negative integer":
+         bytes.fromhex(h if len(h) % 2 == 0 else '0' + h), h = hex(x)[2:]  /  '%x' % x      -> MINBYTES(x, 1)
+         x.to_bytes(max(1, (x.bit_length() + 7) // 8), 'big')                                 -> MINBYTES(x, 1)
+         x.to_bytes((x.bit_length() + 7) // 8, 'big')                                         -> MINBYTES(x, 0)
+    (second operand: number of bytes produced for x == 0)."""
+    def hexdigits(h):
+        if T.is_op(h, 'SLICE') and h[3] == T.const(2) and h[4] == T.NONE and T.is_op(h[2], 'HEXINT'):
+            return h[2][2]
+        if T.is_op(h, 'FORMAT%') and h[2] == T.const('%x'):
+            return h[3]
+        return None
+
+    def nbytes(n, x):
+        return T.is_op(n, 'FLOORDIV') and n[3] == T.const(8) and T.is_op(n[2], 'ADD') and set(n[2][2:]) == {
+            T.const(7), T.raw_op('METHOD', x, T.const('bit_length'))}
+    if T.is_op(t, 'FROMHEX') and T.tag(t[2]) == 'phi':
+        c, a, b = t[2][1], t[2][2], t[2][3]
+        x = hexdigits(b)
+        if x is not None and a == T.cat(T.const('0'), b) and c == T.truth(T.mod(T.len_(b), T.const(2))):
+            return T.raw_op('MINBYTES', x, T.const(1))
+    if T.is_op(t, 'SER') and t[4] == T.const('big'):
+        x, n = t[2], t[3]
+        if nbytes(n, x):
+            return T.raw_op('MINBYTES', x, T.const(0))
+        if T.is_op(n, 'MAX') and len(n) == 4 and T.const(1) in n[2:]:
+            other = n[3] if n[2] == T.const(1) else n[2]
+            if nbytes(other, x):
+                return T.raw_op('MINBYTES', x, T.const(1))
+    return None
+
+
+def canon(t, _memo=None):
+    """idiom-level canonical form applied to both sides before comparing"""
+    memo = {} if _memo is None else _memo
+    if not isinstance(t, tuple) or t is FALL:
+        return t
+    if id(t) in memo:
+        return memo[id(t)][1]
+    k = T.tag(t)
+    if k == 'op':
+        r = ('op', t[1]) + tuple(canon(x, memo) if isinstance(x, tuple) else x for x in t[2:])
+        m = _minbytes(r)
+        if m is not None:
+            r = m
+    elif k == 'phi':
+        r = T.phi(canon(t[1], memo), canon(t[2], memo), canon(t[3], memo))
+    elif k in ('list', 'tuple'):
+        r = (k, tuple(canon(x, memo) for x in t[1]))
+    else:
+        r = t
+    memo[id(t)] = (t, r)
+    return r
 
 
 def _vocab_of(recs, out):
